@@ -536,7 +536,7 @@ def report(prop, tier, seed, contracts, results, args, wall):
     if os.path.exists(ledger_path):
         ledger = json.load(open(ledger_path))
     missing = []
-    if not args.only and not args.case:
+    if not args.only and not args.case and not args.update_ledger:
         have = set(ob_names)
         for ob_id in ledger.get(prop, {}).get(tier, []):
             if ob_id not in have:
